@@ -117,6 +117,37 @@ pub fn cmd_probe(a: &Args) -> i32 {
                 viol.push(format!("configured default capacity {} but spawn() accepted {b} messages while the handler was held", winners[0]));
             }
         }
+        "set-cross" => {
+            // the configured default is process-wide: it applies to spawn() on every thread, and a second configuration is
+            // refused whichever thread attempts it
+            let n = a.u64("n", 5) as usize;
+            obl += 4;
+            if let Err(e) = rsactor::set_default_mailbox_capacity(n) {
+                viol.push(format!("the first set_default_mailbox_capacity({n}) of the process failed: {e}"));
+            }
+            let b_here = rt.block_on(measure_default_bound());
+            let b_thread = std::thread::spawn(|| {
+                let rt = tokio::runtime::Builder::new_current_thread().enable_time().start_paused(true).build().unwrap();
+                rt.block_on(measure_default_bound())
+            })
+            .join()
+            .unwrap_or(usize::MAX);
+            let b_worker = {
+                let rt2 = tokio::runtime::Builder::new_multi_thread().worker_threads(2).enable_time().build().unwrap();
+                rt2.block_on(async { tokio::spawn(measure_default_bound()).await.unwrap_or(usize::MAX) })
+            };
+            let second_ok = std::thread::spawn(move || rsactor::set_default_mailbox_capacity(n + 1).is_ok()).join().unwrap_or(true);
+            let b_after = rt.block_on(measure_default_bound());
+            detail = format!("configured {n} on the main thread; bounds: same thread {b_here}, other thread {b_thread}, runtime worker {b_worker}, after a second attempt {b_after}; second set from another thread ok={second_ok}");
+            for (wh, b) in [("the configuring thread", b_here), ("another OS thread", b_thread), ("a worker of a multi-thread runtime", b_worker), ("the configuring thread after another thread tried to configure again", b_after)] {
+                if b != n {
+                    viol.push(format!("configured default capacity {n}, but an actor spawn()ed on {wh} accepted {b} messages while its handler was held"));
+                }
+            }
+            if second_ok {
+                viol.push("a second set_default_mailbox_capacity, made from another thread, succeeded".into());
+            }
+        }
         "spawn-then-set" => {
             let n = a.u64("n", 3) as usize;
             let b0 = rt.block_on(measure_default_bound());
